@@ -62,6 +62,8 @@ type c16case struct {
 	// Only the base-before-any-child and the most recently loaded child are rendered: what a child load does to the base
 	// and to older children is the listed finding of C17, not this lane's business.
 	Hist []c16step `json:"hist,omitempty"`
+	// ReuseData > 0: the renders of the history share one data object (see c16execHist)
+	ReuseData int `json:"reuse_data,omitempty"`
 }
 
 type c16step struct {
@@ -150,6 +152,9 @@ func c16genHist(r *sim.Rand, c *sim.Case) {
 		}
 		cc.Hist = append(cc.Hist, st)
 	}
+	if r.Chance(0.5) {
+		cc.ReuseData = 1 + r.Intn(3)
+	}
 	b, _ := json.Marshal(cc)
 	c.Tasks = [][]sim.Op{{{K: "c16", S: []sim.Str{sim.Str(b)}, I: []int{0}}}}
 	c.Order = orderPolicy(r)
@@ -166,15 +171,57 @@ func c16execHist(c *sim.Case, cc *c16case, env *Env) []sim.Violation {
 	fail := func(clause, sig, detail string) {
 		viol = append(viol, sim.Violation{Clause: clause, Sig: sig, Detail: detail})
 	}
+	// ReuseData: ONE data object serves every render of the history; between renders the caller brings it to the next data set
+	// through the public ways there are (Clear and the setters; assignments to the exported maps; Merge of a fresh object over
+	// emptied maps). A render must use what the object holds when it is called.
+	var shared *document.TemplateData
+	nthRender := 0
+	dataFor := func(d *TData) *document.TemplateData {
+		if cc.ReuseData == 0 {
+			return d.ToLib()
+		}
+		fresh := d.ToLib()
+		if shared == nil {
+			shared = fresh
+			return shared
+		}
+		nthRender++
+		env.Stats.Probe("renders_with_reused_data_object")
+		switch (cc.ReuseData + nthRender) % 3 {
+		case 0: // Clear, then the setters
+			shared.Clear()
+			for _, k := range sortedKeysS2(fresh.Variables) {
+				shared.SetVariable(k, fresh.Variables[k])
+			}
+			for _, k := range sortedKeysS2(fresh.Lists) {
+				shared.SetList(k, fresh.Lists[k])
+			}
+			for _, k := range sortedKeysS2(fresh.Conditions) {
+				shared.SetCondition(k, fresh.Conditions[k])
+			}
+		case 1: // the exported maps, directly
+			for _, k := range sortedKeysS2(shared.Variables) {
+				delete(shared.Variables, k)
+			}
+			for _, k := range sortedKeysS2(fresh.Variables) {
+				shared.Variables[k] = fresh.Variables[k]
+			}
+			shared.Lists, shared.Conditions = fresh.Lists, fresh.Conditions
+		default: // Merge of a never-rendered object over emptied maps
+			shared.Variables, shared.Lists, shared.Conditions = map[string]interface{}{}, map[string][]interface{}{}, map[string]bool{}
+			shared.Merge(fresh)
+		}
+		return shared
+	}
 	render := func(name string, d *TData, entry int) (string, bool) {
 		var out string
 		sig, pn := Guard(func() {
 			var doc *document.Document
 			var err error
 			if entry == 0 {
-				doc, err = eng.RenderToDocument(name, d.ToLib())
+				doc, err = eng.RenderToDocument(name, dataFor(d))
 			} else {
-				doc, err = eng.RenderTemplateToDocument(name, d.ToLib())
+				doc, err = eng.RenderTemplateToDocument(name, dataFor(d))
 			}
 			if err != nil || doc == nil {
 				out = "render-error"
@@ -680,3 +727,5 @@ func clipAround(a, b string) string {
 	}
 	return "…" + a[from:to] + "…"
 }
+
+func sortedKeysS2[V any](m map[string]V) []string { return sim.SortedKeys(m) }
